@@ -125,6 +125,13 @@ def gen_fn(t, D, scope):
 
 
 def gen_expr(t, D, scope, depth=2):
+    if depth > 0 and t.chance(1, 10):
+        # arithmetic on two literals (a constant sub-expression), including quotients that do not terminate
+        op = t.pick(["+", "-", "*", "/", "/"])
+        a, b = t.num(17, 0.25), t.num(17, 0.25)
+        if op == "/" and b == 0:
+            b = 3.0
+        return (op, a, b)
     if not D["functions"] or depth == 0 or t.chance(1, 3):
         if D["functions"] and t.chance(1, 2):
             fn = gen_fn(t, D, scope)
@@ -345,17 +352,17 @@ def type_decl_order(D, child_first=False, t=None):
     return order
 
 
-def render_domain(D, child_first=False, requirements=(":typing",)):
+def render_domain(D, child_first=False, requirements=(":typing",), decl_var="?v"):
     s = f"(define (domain {D['name']})\n(:requirements {' '.join(requirements)})\n"
     s += "(:types " + " ".join(f"{n} - {p}" for n, p in type_decl_order(D, child_first)) + ")\n"
     if D["constants"]:
         s += "(:constants " + " ".join(f"{n} - {p}" for n, p in D["constants"].items()) + ")\n"
     s += "(:predicates " + " ".join(
-        "(" + p + (" " if sig else "") + r_sig([(f"?v{i}", ty) for i, ty in enumerate(sig)]) + ")"
+        "(" + p + (" " if sig else "") + r_sig([(f"{decl_var}{i}", ty) for i, ty in enumerate(sig)]) + ")"
         for p, sig in D["predicates"].items()) + ")\n"
     if D["functions"]:
         s += "(:functions " + " ".join(
-            "(" + p + (" " if sig else "") + r_sig([(f"?v{i}", ty) for i, ty in enumerate(sig)]) + ")"
+            "(" + p + (" " if sig else "") + r_sig([(f"{decl_var}{i}", ty) for i, ty in enumerate(sig)]) + ")"
             for p, sig in D["functions"].items()) + ")\n"
     for n, a in D["actions"].items():
         s += (f"(:action {n}\n :parameters ({r_sig(a['params'])})\n :precondition {r_f(a['pre'])}\n"
